@@ -1,6 +1,7 @@
 // C01 — VOL pack -> reopen -> extract returns exactly the files that went in; refusals before any damage.
 #include "vol_common.h"
 #include "Archive/VolFile.h"
+#include <unistd.h>
 
 using namespace verif;
 using namespace volgen;
@@ -34,6 +35,8 @@ void verify_archive(const std::string& out, const std::vector<InFile>& fs, Tape&
 			V_CHECK(v.Contains(q), "Contains(" << jstr(q) << ") false for member " << jstr(f.name));
 			V_CHECK(v.GetIndex(q) == i, "GetIndex(" << jstr(q) << ") = " << v.GetIndex(q) << ", member is at " << i);
 		}
+		// member stream opened by (case-varied) name
+		{ auto sn = static_cast<ArchiveFile&>(v).OpenStream(case_variant(f.name, t.u64())); std::vector<uint8_t> gn(size_t(sn->Length())); sn->Read(gn.data(), gn.size()); V_CHECK(gn == f.content, "OpenStream by name returned other bytes for " << jstr(f.name)); }
 		// extraction by (case-varied) name
 		std::string xp = "%x/one.bin";
 		static_cast<ArchiveFile&>(v).ExtractFile(case_variant(f.name, t.u64()), xp);
@@ -41,7 +44,12 @@ void verify_archive(const std::string& out, const std::vector<InFile>& fs, Tape&
 	}
 	// extract all
 	for (auto& f : fs) remove(("%x/all/" + f.name).c_str());
-	v.ExtractAllFiles("%x/all");
+	// destination spelled several ways, or a directory that does not exist yet (created on demand, as for any output file)
+	std::string dest = t.pick<std::string>({"%x/all", "%x/all/", "./%x/all", "%x//all", "%x/all/."});
+	bool fresh = !fs.empty() && t.below(4) == 0; std::string freshDir = "%x/fresh" + std::to_string(t.below(1000));
+	if (fresh) { dest = freshDir; st.cls("extract_all_into_new_directory"); }
+	v.ExtractAllFiles(dest);
+	if (fresh) { for (auto& f : fs) { V_CHECK(slurp(freshDir + "/" + f.name) == f.content, "ExtractAllFiles into a new directory wrote different bytes for " << jstr(f.name)); remove((freshDir + "/" + f.name).c_str()); } rmdir(freshDir.c_str()); return; }
 	for (auto& f : fs) { V_CHECK(slurp("%x/all/" + f.name) == f.content, "ExtractAllFiles wrote different bytes for " << jstr(f.name)); remove(("%x/all/" + f.name).c_str()); }
 	(void)st;
 }
@@ -56,8 +64,9 @@ void success_case(Tape& t, Stats& st, std::vector<InFile> fs, bool sample) {
 	for (size_t i = perm.size(); i > 1; --i) std::swap(perm[i - 1], perm[t.below(i)]);
 	for (size_t i : perm) paths.push_back(fs[i].spelled);
 	mkdirs("%o/");
-	std::string out = t.pick<std::string>({"%o/out.vol", "./%o/out.vol", "%o/OUT.VOL", root() + "/%o/out.vol", "%o//out2.vol"});
-	bool pre = t.flag();
+	std::string out = t.pick<std::string>({"%o/out.vol", "./%o/out.vol", "%o/OUT.VOL", root() + "/%o/out.vol", "%o//out2.vol", "%o/%new/out.vol"});
+	if (out == "%o/%new/out.vol") { remove("%o/%new/out.vol"); rmdir("%o/%new"); st.cls("output_in_new_directory"); }
+	bool pre = t.flag(); if (out == "%o/%new/out.vol") pre = false;
 	// one case in eight: the output sits next to an input and its name is a proper PREFIX of that input's name (another file, so legal)
 	bool prefixOut = false;
 	if (!fs.empty() && t.below(8) == 0) {
@@ -71,19 +80,24 @@ void success_case(Tape& t, Stats& st, std::vector<InFile> fs, bool sample) {
 		}
 	}
 	remove(out.c_str());
-	if (pre) write_file(out, std::vector<uint8_t>(37, 0x77));
+	if (pre) write_file(out, std::vector<uint8_t>(t.flag() ? 37 : 70000, 0x77));   // shorter or LONGER than the archive that replaces it
 	if (sample && st.want_sample()) st.sample(render(fs, out));
 	std::string what;
 	Out o = guarded([&] { VolFile::CreateArchive(out, paths); }, &what);
 	V_CHECK(o == Out::Ok, "CreateArchive refused a legal file set (" << fs.size() << " files): " << what);
 	for (auto& f : fs) V_CHECK(slurp(f.dir + f.name) == f.content, "input file " << jstr(f.dir + f.name) << " was modified by CreateArchive");
+	{ // the whole file, byte for byte, against the independent encoder (also catches a stale tail left by a lost truncation)
+		std::vector<refvol::Member> ms; for (size_t i : expected_order(fs)) { refvol::Member m; m.name = fs[i].name; m.payload = fs[i].content; m.sizeField = uint32_t(m.payload.size()); ms.push_back(m); }
+		std::vector<uint8_t> want = refvol::encode(ms), got = slurp(out);
+		if (got != want) { size_t at = 0; while (at < got.size() && at < want.size() && got[at] == want[at]) ++at; V_CHECK(false, "archive bytes differ from the independent encoding of the same members at offset " << at << " (file " << got.size() << " bytes, expected " << want.size() << (pre ? "; the output existed before" : "") << ")"); }
+	}
 	verify_archive(out, fs, t, st);
 	size_t tbl = 0; bool nonempty = false;
 	for (auto& f : fs) { tbl += f.name.size() + 1; st.cls("size_mod4:" + std::to_string(f.content.size() % 4)); if (!f.content.empty()) nonempty = true; if (f.content.size() >= 131071) st.cls("chunk_boundary_size"); }
 	st.cls("table_mod4:" + std::to_string(tbl % 4));
 	st.cls("files:" + std::to_string(std::min<size_t>(fs.size(), 8)));
 	if (fs.size() >= 2 && nonempty) { uint64_t h = fs.size(); for (auto& f : fs) h = fnv1a(f.name.data(), f.name.size(), hmix(h, f.content.size())); for (auto& p : paths) h = fnv1a(p.data(), p.size(), h); st.nt(h); }
-	cleanup_inputs(fs); remove(out.c_str());
+	cleanup_inputs(fs); remove(out.c_str()); rmdir("%o/%new");
 }
 
 // (a) two inputs equal ignoring case
@@ -176,6 +190,24 @@ void run_sweep(Stats& st) {
 		std::vector<InFile> fs(2);
 		fs[0].name = "big.bin"; fs[0].content.resize(sz); for (size_t k = 0; k < sz; ++k) fs[0].content[k] = uint8_t(k ^ (k >> 8) ^ (k >> 16));
 		fs[1].name = "Tail.txt"; fs[1].content = {1, 2, 3};
+		Tape t(tp); success_case(t, st, fs, false);
+	}
+	// zero-length members: alone, first, middle, last (block header ends exactly at end of file), two in a row
+	for (unsigned mask = 1; mask < 16; ++mask) {
+		if (!sw("zero_length", mask)) continue;
+		std::vector<InFile> fs;
+		for (unsigned i = 0; i < 4; ++i) { InFile f; f.name = std::string(1, char('p' + i)) + "_z"; f.dir = i == 2 ? "%d0/" : ""; if (!((mask >> i) & 1)) { f.content.resize(5 + i); for (size_t k = 0; k < f.content.size(); ++k) f.content[k] = uint8_t(k + 9 * i); } fs.push_back(f); }
+		for (int v = 0; v < 2; ++v) { tp[0] = uint8_t(v * 5); Tape t(tp); success_case(t, st, fs, false); }
+	}
+	// name-length extremes: 1, 200 and 255 characters together; and (thorough) 700 members with 100-character names (name table > 65535 bytes)
+	if (sw("long_names")) {
+		std::vector<InFile> fs;
+		for (size_t len : {size_t(1), size_t(200), size_t(255), size_t(254)}) { InFile f; f.name = std::string(len, char('a' + len % 7)); f.name[0] = char('A' + fs.size()); f.content.assign(3 + fs.size(), uint8_t(len)); fs.push_back(f); }
+		Tape t(tp); success_case(t, st, fs, false);
+	}
+	if (g_thorough && sw("many_long_names")) {
+		std::vector<InFile> fs;
+		for (unsigned i = 0; i < 700; ++i) { InFile f; f.name = "n" + std::to_string(100000 + i * 7919 % 100000) + "_" + std::string(92, char('a' + i % 26)) + std::to_string(i); f.content.assign(i % 5, uint8_t(i)); f.dir = i % 50 == 0 ? "%d0/" : ""; fs.push_back(f); }
 		Tape t(tp); success_case(t, st, fs, false);
 	}
 	// many members: names built systematically from letters of both cases, digits and the punctuation that sorts between the
